@@ -11,6 +11,7 @@ pub mod graph;
 pub mod history;
 pub mod inputs;
 pub mod shell;
+pub mod specgen;
 
 pub const DEFAULT_SEED: u64 = 20261004;
 
@@ -26,7 +27,7 @@ pub struct Ctx<'a> {
     pub cache: &'a mut common::Cache,
 }
 
-pub const CLAIMED: [&str; 12] = ["C02", "C03", "C04", "C05", "C06", "C07", "C08", "C09", "C10", "C11", "C17", "C18"];
+pub const CLAIMED: [&str; 13] = ["C01", "C02", "C03", "C04", "C05", "C06", "C07", "C08", "C09", "C10", "C11", "C17", "C18"];
 
 /// Number of cases for a property and tier.
 pub fn budget(prop: &str, tier: Tier) -> u64 {
@@ -36,6 +37,7 @@ pub fn budget(prop: &str, tier: Tier) -> u64 {
         "C08" => 5_000,
         "C04" => 6_000,
         "C11" => 20_000,
+        "C01" => 24_000,
         "C18" => 20_000,
         "C17" => 6_000,
         "C10" => 8_000,
@@ -53,6 +55,7 @@ pub fn gen_case(prop: &str, seed: u64, index: u64, tier: Tier) -> Case {
         "C06" | "C07" | "C08" | "C09" | "C10" => history::gen(prop, seed, index, tier),
         "C04" => fault::gen(prop, seed, index, tier),
         "C11" => inputs::gen(prop, seed, index, tier),
+        "C01" => specgen::gen(prop, seed, index, tier),
         "C18" => fuzz::gen(prop, seed, index, tier),
         "C17" => shell::gen(prop, seed, index, tier),
         _ => panic!("unknown property {prop}"),
@@ -65,6 +68,7 @@ pub fn run_case(case: &Case, ctx: &mut Ctx) -> CaseOutcome {
         "C06" | "C07" | "C08" | "C09" | "C10" => history::run(case, ctx),
         "C04" => fault::run(case, ctx),
         "C11" => inputs::run(case, ctx),
+        "C01" => specgen::run(case, ctx),
         "C18" => fuzz::run(case, ctx),
         "C17" => shell::run(case, ctx),
         p => {
@@ -84,6 +88,7 @@ pub fn level(prop: &str) -> &'static str {
 
 pub fn rule(prop: &str) -> &'static str {
     match prop {
+        "C01" => "case = (generated multi-file project over the documented input domain of DESIGN.md 4.3: all seven directives, single- and multi-line forms in the three continuation forms, ASCII and non-ASCII prefixes, indentation, LF/CRLF and mixed endings per file, with/without final newline, includes of plain files / of .txtpp-backed files across directories / of raw .txtpp files, tags in all orders, temp files, look-alike lines, one injected error in a seventh of the projects; input selection; mode build or --needed; trailing-newline option; K; seeded schedule, 4 per project). Oracle = executable README model (R-spec); cases the model cannot decide are skipped and counted. Non-trivial = at least two directives in the required closure; distinct = distinct (project bytes, config, and for multi-file runs the action list).",
         "C02" => "case = (generated acyclic project with stale files planted at every generated path, input selection, mode, K, seeded schedule); 4 schedules per project. Non-trivial = the required closure has at least one dependency edge and the run returned Ok; distinct = distinct hash of (project bytes, config, action list).",
         "C03" => "case = (generated digraph project incl. cyclic ones, input list with duplicates/aliases, K, seeded schedule). Non-trivial = at least 2 pool tasks for source files and at least one asserted marker; distinct = distinct hash of (project bytes, config, action list).",
         "C05" => "case = (generated digraph project with self-loops / 2-cycles / longer cycles / bystanders, input selection, K, seeded schedule). Non-trivial = the required closure contains a file that can reach a cycle; distinct = distinct hash of (project bytes, config, action list).",
@@ -103,7 +108,7 @@ pub fn rule(prop: &str) -> &'static str {
 pub fn per_project(prop: &str) -> u64 {
     match prop {
         "C17" | "C18" => 1,
-        "C02" | "C03" | "C05" => 4,
+        "C01" | "C02" | "C03" | "C05" => 4,
         _ => 2,
     }
 }
@@ -132,6 +137,7 @@ pub fn after_case(case: &Case, oc: &mut CaseOutcome, panics: &[String], stats: &
 /// Reach probes that must fire at least once per batch on the unchanged tree.
 pub fn expected_probes(prop: &str) -> &'static [&'static str] {
     match prop {
+        "C01" => &["c01.multi_file_runs", "c01.single_file_runs", "c01.spec_ok", "c01.spec_err", "c01.files_compared_exactly", "c01.files_compared_modulo_trailing_eol", "c01.multi_line_directives", "c01.directive.include", "c01.directive.after", "c01.directive.run", "c01.directive.temp", "c01.directive.tag", "c01.directive.write", "c01.directive.empty", "c01.error_kind.tag-prefix", "c01.error_kind.prefixless-empty", "c01.error_kind.temp-txtpp-mid"],
         "C02" => &[
             "probe.hasdeps_with_dep_already_done",
             "probe.hasdeps_all_deps_already_done",
